@@ -313,6 +313,12 @@ func c10Exec(cs *c10Case, plan *simrt.MapPlan, u *wk.Unit) *wk.Failure {
 		return &wk.Failure{Class: "invalid-case", Detail: ref.Err}
 	}
 	r0 := ref.Msgs[0]
+	for _, n := range r0.Names {
+		if n == "" {
+			// names are derived from the variable, field or tag: a placeholder the naming pass skipped has none
+			return mk("unnamed placeholder", fmt.Sprintf("a placeholder of the message was left without a name: names %q, placeholder string %q", r0.Names, r0.PH))
+		}
+	}
 	if u != nil {
 		u.Counters["placeholders_in_messages"] += int64(len(r0.Names))
 		seen := map[string]bool{}
@@ -430,6 +436,35 @@ func c10Exec(cs *c10Case, plan *simrt.MapPlan, u *wk.Unit) *wk.Failure {
 				pl.Dflt = append(append([]msgPart{}, pl.Dflt...), msgPart{T: "ph", S: "$brand_new"})
 				m.Body = []msgPart{pl}
 			}
+		case "nested-placeholder":
+			// a placeholder added inside the innermost plural of a nested plural
+			if len(m.Body) == 0 || m.Body[0].T != "plural" {
+				return nil
+			}
+			pl := m.Body[0]
+			found := false
+			addTo := func(ps []msgPart) []msgPart {
+				out := append([]msgPart{}, ps...)
+				for i := range out {
+					if out[i].T == "plural" && !found {
+						in := out[i]
+						in.Dflt = append(append([]msgPart{}, in.Dflt...), msgPart{T: "ph", S: "$brand_new"})
+						out[i] = in
+						found = true
+					}
+				}
+				return out
+			}
+			pl.Dflt = addTo(pl.Dflt)
+			cases := append([]msgCase{}, pl.Cases...)
+			for i := range cases {
+				cases[i].Body = addTo(cases[i].Body)
+			}
+			pl.Cases = cases
+			if !found {
+				return nil
+			}
+			m.Body = []msgPart{pl}
 		case "plural-structure":
 			if len(m.Body) == 0 || m.Body[0].T != "plural" {
 				return nil
@@ -708,7 +743,7 @@ func C10(c *wk.Ctx) {
 				u.Counters["check_context_nested"]++
 			}
 			// (e) sensitivity
-			for _, v := range []string{"text", "meaning", "placeholder", "plural-structure", "last-char", "meaning-last-char", "text-pairs", "directive"} {
+			for _, v := range []string{"text", "meaning", "placeholder", "plural-structure", "last-char", "meaning-last-char", "text-pairs", "directive", "nested-placeholder"} {
 				do(&c10Case{Msg: m, Check: "sensitivity", Variant: v}, nil)
 			}
 			if mi == 0 {
